@@ -41,7 +41,7 @@ def cases(tier, seed):
         if ps["family"] == "log_barrier":
             ps["box"] = gen.pick(rng, ["none", "none", "lower", "nonneg"])  # the domain x > 0 is enforced by inf values, not by the box
         cfg = {
-            "jac": "callable" if (rng.random() < 0.85 or ps["family"] == "log_barrier") else gen.pick(rng, [None, "2-point"]),
+            "jac": "callable" if (rng.random() < 0.85 or ps["family"] == "log_barrier") else gen.pick(rng, [None, "2-point", "3-point", "cs"]),
             "maxcor": int(rng.integers(1, 8)),
             "maxiter": int(gen.pick(rng, [0, 1, 2, 3, 5, 50])),
             "maxfun": int(gen.pick(rng, [1, 2, 3, 5, 8, 100])),
